@@ -23,6 +23,7 @@ VERIF = os.path.dirname(os.path.dirname(os.path.abspath(__file__)))
 REPO = os.environ.get("VERIF_REPO", "/repo")
 SPEC = os.path.join(VERIF, "spec")
 BUILD = os.path.join(VERIF, "build")
+OUTDIR = os.environ.get("VERIF_OUT", VERIF)     # evidence/ and replays/ go here (seed runs redirect it)
 BIN = os.path.join(BUILD, "bin")
 JAR = "/opt/veriftools/tla/tla2tools.jar:/opt/veriftools/tla/CommunityModules-deps.jar"
 NCPU = os.cpu_count() or 4
@@ -148,14 +149,27 @@ def run_tlc(module, cfg=None, files=None, workers=1, timeout=600, extra=None, he
 
 # --------------------------------------------------------------------------- Go harness
 
+_built = {}
+
+
 def build_harness(noasm=False, race=False):
-    """(Re)build the harness from /repo's current working tree; returns the binary path."""
-    os.makedirs(BIN, exist_ok=True)
+    """(Re)build the harness from the repository's current working tree; returns the binary path.
+
+    The binary goes to this process's scratch directory, so concurrent checks do not disturb each
+    other.  VERIF_REPO (default /repo) may point at a scratch worktree: the harness module is then
+    copied and its go.mod `replace` rewritten (used only by bin/seed_run)."""
     tags = "verif" + (",noasm" if noasm else "")
     name = "lz4verif" + ("-noasm" if noasm else "") + ("-race" if race else "")
-    out = os.path.join(BIN, name)
+    if name in _built:
+        return _built[name]
+    out = os.path.join(scratch("bin"), name)
     hdir = os.path.join(VERIF, "harness")
-    # go.sum of the replaced module (empty for lz4, kept in step in case it changes)
+    if REPO != "/repo":
+        h2 = os.path.join(scratch("harness"), "harness")
+        shutil.copytree(hdir, h2)
+        gm = open(os.path.join(h2, "go.mod")).read().replace("=> /repo", "=> " + REPO)
+        open(os.path.join(h2, "go.mod"), "w").write(gm)
+        hdir = h2
     try:
         shutil.copy(os.path.join(REPO, "go.sum"), os.path.join(hdir, "go.sum"))
     except OSError:
@@ -164,12 +178,10 @@ def build_harness(noasm=False, race=False):
     if race:
         cmd.insert(2, "-race")
     cmd.append("./cmd/lz4verif")
-    env = dict(GOENV)
-    if REPO != "/repo":
-        raise MachineryFault("VERIF_REPO override is not supported by go.mod replace")
-    p = subprocess.run(cmd, cwd=hdir, env=env, stdout=subprocess.PIPE, stderr=subprocess.STDOUT, text=True)
+    p = subprocess.run(cmd, cwd=hdir, env=dict(GOENV), stdout=subprocess.PIPE, stderr=subprocess.STDOUT, text=True)
     if p.returncode != 0:
         raise MachineryFault("harness build failed (tags %s):\n%s" % (tags, p.stdout))
+    _built[name] = out
     return out
 
 
@@ -223,7 +235,7 @@ def _split_cases(lines):
 
 
 def validate_trace(ctx, module, trace_path, shards=None, timeout=900, cfg=None, max_reject=8,
-                   deque=False, per_shard_min=1):
+                   deque=False, per_shard_min=1, cfg_text=None):
     """Validate a recorded trace with TLC, sharded at case boundaries.
 
     Returns (accepted_cases, rejected) where rejected is a list of dicts
@@ -251,7 +263,7 @@ def validate_trace(ctx, module, trace_path, shards=None, timeout=900, cfg=None, 
             with open(tp, "w") as f:
                 f.write("\n".join(flat) + "\n")
             r = run_tlc(module, cfg=cfg or module, files={"trace.ndjson": tp}, workers=1,
-                        timeout=timeout, deque=deque)
+                        timeout=timeout, deque=deque, cfg_text=cfg_text)
             shutil.rmtree(d, ignore_errors=True)
             ctx.add_tlc(r, "trace:" + module)
             if r.timed_out:
@@ -358,9 +370,9 @@ class Ctx:
         if any(v[0] == key for v in self.violations):
             self.extra["violations_same_key"] = self.extra.get("violations_same_key", 0) + 1
             return
-        os.makedirs(os.path.join(VERIF, "replays", self.prop), exist_ok=True)
+        os.makedirs(os.path.join(OUTDIR, "replays", self.prop), exist_ok=True)
         h = hashlib.sha1(json.dumps(replay, sort_keys=True).encode()).hexdigest()[:12]
-        path = os.path.join(VERIF, "replays", self.prop, "%s-%s.json" % (re.sub(r"[^A-Za-z0-9_.-]", "_", key)[:60], h))
+        path = os.path.join(OUTDIR, "replays", self.prop, "%s-%s.json" % (re.sub(r"[^A-Za-z0-9_.-]", "_", key)[:60], h))
         with open(path, "w") as f:
             json.dump(replay, f, indent=1)
         self.violations.append((key, what, path))
@@ -380,8 +392,8 @@ class Ctx:
         ev = {"property_id": self.prop, "tier": self.tier, "seed": self.seed, "level": level,
               "coverage": cov, "assumptions": self.assumptions, "wall_s": round(wall, 2),
               "violations": len(self.violations)}
-        os.makedirs(os.path.join(VERIF, "evidence"), exist_ok=True)
-        with open(os.path.join(VERIF, "evidence", self.prop + ".json"), "w") as f:
+        os.makedirs(os.path.join(OUTDIR, "evidence"), exist_ok=True)
+        with open(os.path.join(OUTDIR, "evidence", self.prop + ".json"), "w") as f:
             json.dump(ev, f, indent=1)
         for k in self.known_hits:
             print("KNOWN-FINDING: property=%s %s" % (self.prop, k["what"]), flush=True)
